@@ -8,7 +8,7 @@ use crate::play::apply_clocks;
 use chess_engine::{Score, ThreeFold};
 use chess_movegen::Board;
 use proptest::prelude::*;
-use refchess::{Mv, Pos, C};
+use refchess::{Mv, Pos, C, P};
 use serde::{Deserialize, Serialize};
 use serde_json::{json, Value};
 
@@ -192,9 +192,95 @@ fn c11_case(c: &EngCase, st: &mut Stats, dense: u64) -> Result<(), String> {
     Ok(())
 }
 
+/// many-move positions: several queens on an open board (well over 100 legal moves, which
+/// random play never reaches), built by construction
+fn many_move_position(g: &mut Expand) -> Option<Pos> {
+    let mut p = Pos::empty();
+    p.full = 1;
+    let corner = [0u8, 7, 56, 63][g.below(4) as usize];
+    p.sq[corner as usize] = Some((C::Black, P::King));
+    let free = |p: &Pos, g: &mut Expand| -> u8 {
+        loop {
+            let s = g.below(64) as u8;
+            if p.sq[s as usize].is_none() {
+                return s;
+            }
+        }
+    };
+    let wk = free(&p, g);
+    p.sq[wk as usize] = Some((C::White, P::King));
+    let nq = 5 + g.below(5);
+    for _ in 0..nq {
+        let s = free(&p, g);
+        p.sq[s as usize] = Some((C::White, P::Queen));
+        // the side not to move may not be in check: drop a queen that attacks the black king
+        if !p.unplayable_reasons().is_empty() {
+            p.sq[s as usize] = None;
+        }
+    }
+    for _ in 0..g.below(3) {
+        let s = free(&p, g);
+        p.sq[s as usize] = Some((C::White, [P::Rook, P::Bishop, P::Knight][g.below(3) as usize]));
+        if !p.unplayable_reasons().is_empty() {
+            p.sq[s as usize] = None;
+        }
+    }
+    for _ in 0..g.below(3) {
+        let s = free(&p, g);
+        if (1..=6).contains(&(s / 8)) {
+            p.sq[s as usize] = Some((C::Black, P::Pawn));
+            if !p.unplayable_reasons().is_empty() {
+                p.sq[s as usize] = None;
+            }
+        }
+    }
+    p.turn = C::White;
+    if !p.plausible() {
+        return None;
+    }
+    Some(if g.below(2) == 0 { p } else { p.mirror() })
+}
+
+fn fen_case(p: &Pos) -> EngCase {
+    EngCase { play: PlayCase { root: Root::Fen(p.fen()), half: 0, full: 0, choices: vec![], aux: 0 }, history: false, extra: vec![100, 20000, 40000, 65000], clock: None }
+}
+
+/// directed C11 family: every named root and its mirror exactly as given (no playout), and
+/// constructed many-move positions
+fn c11_directed(ctx: &WorkerCtx) -> Result<(), Fail> {
+    let mut st = ctx.stats.borrow_mut();
+    for i in 0..ROOTS.len() {
+        if !ctx.mine(i as u64) {
+            continue;
+        }
+        for mirror in [false, true] {
+            let c = EngCase { play: PlayCase { root: Root::Named { idx: i as u16, mirror }, half: 0, full: 0, choices: vec![], aux: 0 }, history: false, extra: vec![100, 30000, 65000], clock: None };
+            guarded(|| c11_case(&c, &mut st, 40)).unwrap_or_else(Err).map_err(|d| Fail { case: eng_json(&c), detail: d })?;
+        }
+    }
+    st.class("directed: every named root and its mirror, unplayed");
+    let mut g = Expand(ctx.wseed(1111));
+    let mut made = 0;
+    for _ in 0..400 {
+        if made >= ctx.tier.pick(6, 60) {
+            break;
+        }
+        let Some(p) = many_move_position(&mut g) else { continue };
+        if p.legal().len() < 100 {
+            continue;
+        }
+        made += 1;
+        let c = fen_case(&p);
+        guarded(|| c11_case(&c, &mut st, 24)).unwrap_or_else(Err).map_err(|d| Fail { case: eng_json(&c), detail: d })?;
+        st.class(if p.legal().len() > 128 { "directed: constructed position with more than 128 legal moves" } else { "directed: constructed position with 100..128 legal moves" });
+    }
+    Ok(())
+}
+
 pub const C11: CheckDef = CheckDef {
     id: "C11",
     worker: |ctx| {
+        c11_directed(ctx)?;
         let dense = ctx.tier.pick(300, 800);
         ctx.max_shrink.set(150);
         run_proptest(ctx, 11, ctx.share(ctx.tier.pick(2_000, 30_000)), eng_strategy(22, 40), eng_json, move |c, st| c11_case(c, st, dense))
@@ -385,9 +471,184 @@ fn c12_strategy() -> impl Strategy<Value = EngCase> {
     prop_oneof![3 => general, 2 => tactical]
 }
 
+/// directed C12 families that random generation does not reach:
+///  (a) mates delivered by a CAPTURE that leaves only kings and minor pieces (the boundary
+///      between the draw-by-material shortcut and mate detection);
+///  (b) constructed many-move positions (the mating move may come very late in any move order).
+fn c12_directed(ctx: &WorkerCtx) -> Result<(), Fail> {
+    let mut st = ctx.stats.borrow_mut();
+    let mut g = Expand(ctx.wseed(1212));
+    let tries = ctx.tier.pick(60_000u64, 1_500_000);
+    let mut hits = 0u64;
+    for _ in 0..tries {
+        // black king on an edge, white king close, one or two white minors, one black unit
+        let mut p = Pos::empty();
+        p.full = 1;
+        let e = g.below(28) as u8;
+        let bk = match e {
+            0..=7 => e,
+            8..=15 => 56 + (e - 8),
+            16..=21 => 8 * (1 + e - 16),
+            _ => 8 * (1 + e - 22) + 7,
+        };
+        p.sq[bk as usize] = Some((C::Black, P::King));
+        let near = |g: &mut Expand, c: u8, d: i8| -> Option<u8> {
+            let f = refchess::fl(c) + (g.below(2 * d as u64 + 1) as i8 - d);
+            let r = refchess::rk(c) + (g.below(2 * d as u64 + 1) as i8 - d);
+            refchess::mk(f, r)
+        };
+        let Some(wk) = near(&mut g, bk, 2) else { continue };
+        if p.sq[wk as usize].is_some() {
+            continue;
+        }
+        p.sq[wk as usize] = Some((C::White, P::King));
+        let minors = [[P::Knight, P::Knight], [P::Knight, P::Bishop], [P::Bishop, P::Knight], [P::Knight, P::Pawn]][g.below(4) as usize];
+        let mut ok = true;
+        for (i, m) in minors.iter().enumerate() {
+            if i == 1 && g.below(3) == 0 {
+                break;
+            }
+            if *m == P::Pawn {
+                break;
+            }
+            match near(&mut g, bk, 3) {
+                Some(s) if p.sq[s as usize].is_none() => p.sq[s as usize] = Some((C::White, *m)),
+                _ => ok = false,
+            }
+        }
+        let unit = [P::Pawn, P::Knight, P::Bishop, P::Rook, P::Queen, P::Pawn][g.below(6) as usize];
+        match near(&mut g, bk, 2) {
+            Some(s) if p.sq[s as usize].is_none() && (unit != P::Pawn || (1..=6).contains(&(s / 8))) => p.sq[s as usize] = Some((C::Black, unit)),
+            _ => ok = false,
+        }
+        // sometimes a black minor of its own (K+N v K+N after the capture)
+        if g.below(3) == 0 {
+            if let Some(s) = near(&mut g, bk, 3) {
+                if p.sq[s as usize].is_none() {
+                    p.sq[s as usize] = Some((C::Black, P::Knight));
+                }
+            }
+        }
+        p.turn = C::White;
+        if !ok || !p.plausible() {
+            continue;
+        }
+        let legal = p.legal();
+        let capture_mates = legal.iter().any(|m| {
+            let n = p.apply(*m);
+            p.kind(*m).capture && n.in_check() && n.legal().is_empty()
+        });
+        if !capture_mates {
+            continue;
+        }
+        for q in [p.clone(), p.mirror()] {
+            let sub = Setup { board: to_board(&q).map_err(|d| Fail { case: json!({"fen": q.fen()}), detail: d })?, legal: q.legal(), pos: q.clone(), tf: ThreeFold::new() };
+            let case = fen_case(&q);
+            guarded(|| c12_eval(sub, false, &mut st)).unwrap_or_else(Err).map_err(|d| Fail { case: eng_json(&case), detail: d })?;
+            hits += 1;
+        }
+    }
+    st.class_n("directed: mate by a capture that leaves only kings and minor pieces", hits);
+    // (b') many-move positions whose every mating move comes late (index >= 120) in the order in
+    // which the implementation's own iterator hands out moves (captures first, then the rest).
+    // Found by a constructive search: start from a bare skeleton and keep adding white queens
+    // on low squares (they come early in any square-ordered move list) as long as no early
+    // mating move appears; accept when > 128 moves and at least one (late) mate exist.
+    let order_of = |b: &Board| -> Vec<Mv> {
+        let mut order: Vec<Mv> = vec![];
+        let mut it = b.legals();
+        it.set_mask(b[!b.turn()]);
+        for m in &mut it {
+            order.push(from_cm(m));
+        }
+        it.set_mask(!chess_bitboard::BitBoard::empty());
+        for m in it {
+            order.push(from_cm(m));
+        }
+        order
+    };
+    let first_mate = |p: &Pos| -> Option<(usize, usize, usize)> {
+        let legal = p.legal();
+        let mates = mating_moves(p, &legal);
+        let b = to_board(p).ok()?;
+        let order = order_of(&b);
+        let first = mates.iter().filter_map(|m| order.iter().position(|x| x == m)).min().unwrap_or(usize::MAX);
+        Some((legal.len(), mates.len(), first))
+    };
+    let mut late = 0;
+    for _ in 0..ctx.tier.pick(40, 600) {
+        if late >= ctx.tier.pick(3, 40) {
+            break;
+        }
+        let mut p = Pos::empty();
+        p.full = 1;
+        p.turn = C::White;
+        let bk = [63u8, 56, 62, 57][g.below(4) as usize];
+        p.sq[bk as usize] = Some((C::Black, P::King));
+        let wk = 16 + g.below(24) as u8;
+        p.sq[wk as usize] = Some((C::White, P::King));
+        if !p.plausible() {
+            continue;
+        }
+        let mut stale = 0;
+        while stale < 60 {
+            let s = if g.below(4) == 0 { g.below(64) as u8 } else { g.below(40) as u8 };
+            if p.sq[s as usize].is_some() {
+                stale += 1;
+                continue;
+            }
+            let mut q = p.clone();
+            q.sq[s as usize] = Some((C::White, if g.below(7) == 0 { P::Rook } else { P::Queen }));
+            if q.count(C::White) > 16 || !q.plausible() {
+                stale += 1;
+                continue;
+            }
+            let Some((n, nm, first)) = first_mate(&q) else { break };
+            if nm > 0 && first < n.min(128) * 9 / 10 {
+                stale += 1;
+                continue;
+            }
+            p = q;
+            stale = 0;
+            if n > 128 && nm > 0 && first >= 120 {
+                break;
+            }
+        }
+        let Some((n, nm, first)) = first_mate(&p) else { continue };
+        if !(n > 128 && nm > 0 && first >= 120) {
+            continue;
+        }
+        late += 1;
+        for q in [p.clone(), p.mirror()] {
+            let sub = Setup { board: to_board(&q).map_err(|d| Fail { case: json!({"fen": q.fen()}), detail: d })?, legal: q.legal(), pos: q.clone(), tf: ThreeFold::new() };
+            let case = fen_case(&q);
+            guarded(|| c12_eval(sub, false, &mut st)).unwrap_or_else(Err).map_err(|d| Fail { case: eng_json(&case), detail: d })?;
+        }
+        st.class("directed: > 128 legal moves and every mating move late in iteration order");
+    }
+    // (b) many-move positions
+    let mut made = 0;
+    for _ in 0..4000 {
+        if made >= ctx.tier.pick(12, 200) {
+            break;
+        }
+        let Some(p) = many_move_position(&mut g) else { continue };
+        let legal = p.legal();
+        if legal.len() <= 128 {
+            continue;
+        }
+        made += 1;
+        let sub = Setup { board: to_board(&p).map_err(|d| Fail { case: json!({"fen": p.fen()}), detail: d })?, legal, pos: p.clone(), tf: ThreeFold::new() };
+        let case = fen_case(&p);
+        guarded(|| c12_eval(sub, false, &mut st)).unwrap_or_else(Err).map_err(|d| Fail { case: eng_json(&case), detail: d })?;
+        st.class("directed: constructed position with more than 128 legal moves");
+    }
+    Ok(())
+}
+
 pub const C12: CheckDef = CheckDef {
     id: "C12",
-    worker: |ctx| { ctx.max_shrink.set(400); run_proptest(ctx, 12, ctx.share(ctx.tier.pick(40_000, 1_500_000)), c12_strategy(), eng_json, c12_case) },
+    worker: |ctx| { c12_directed(ctx)?; ctx.max_shrink.set(400); run_proptest(ctx, 12, ctx.share(ctx.tier.pick(40_000, 1_500_000)), c12_strategy(), eng_json, c12_case) },
     replay: |v| c12_case(&eng_from(v)?, &mut Stats::new()),
     rule: "positions from mating-net constructors (lone king on an edge vs king + 1-3 heavy/minor pieces + scattered material), sparse synthetic placements and general roots, followed by playouts; half-move clock forced to 96..100 in a third of the cases; optionally the mated position pre-filled twice in the repetition table. The reference enumerates the mating moves. With the limit expiring at s_1, s_1+1, s_1+7, s_2, s_2+1 and never: positions WITH a mate in one must return a mating move and the mover's MateIn(1) score; positions WITHOUT must never report the mover's MateIn(1); a MateIn(1) score always comes with a move that mates. Non-trivial = position with a mate in one, or with a check that is not mate; distinct by position key.",
     assumptions: &["oracle: refchess (mating move = legal move after which the opponent is in check and has no legal move)", "pass boundaries from the 'start depth' event as in C11"],
